@@ -25,8 +25,8 @@ RULE = ("single level: full product {unsigned, signed by key A} x {error, skip, 
         "omit-signing nodes keep their authentication list, refusals raise and leave no output file.")
 ASSUMPTIONS = ["svmc/refcose.py, cryptography verification", "inputs are unsigned or singly signed (as the property quantifies)",
                "'skip' on a signed input returns it unchanged without consulting the key (first clause of the property)"]
-BOUNDS = {"quick": "single-level product complete; policy machine depth 3; recursive deviation bound 2 on all 9 shapes",
-          "thorough": "single-level product complete; policy machine depth 4; recursive deviation bound 3"}
+BOUNDS = {"quick": "single-level product complete; policy machine depth 2 (reused signer object: all 33^2 sequences); recursive deviation bound 2 on all 9 shapes",
+          "thorough": "single-level product complete; policy machine depth 3 (reused signer: all 33^3 sequences); recursive deviation bound 3"}
 
 ALGS = ["eddsa", "es-256", "es-384", "es-521", "hash-eddsa"]
 KEYT = ["ed25519", "p256", "p384", "p521", "ed448"]
@@ -169,8 +169,8 @@ def judge_single(b, out, exp, key, alg):
         return ("remove-old-kept-old" if exp == "replace" else "signature-count"), f"{len(ob)} signatures in the output, expected {want_n}"
     if exp == "append" and ob[:-1] != ib:
         return "existing-block-changed", "existing authentication blocks changed"
-    if exp == "replace" and ob[0] in ib:
-        return "remove-old-kept-old", "the old signature is still the one present"
+    # (that the remaining block is the NEW one follows from its verification under the new key / key id below; with a
+    #  deterministic algorithm and the same key the new block is legitimately byte-identical to the old one)
     bad = verify_block(out, ob[-1], key, alg)
     if bad:
         return "signature", bad
@@ -184,24 +184,38 @@ OPS = [(a, alg, k) for a in ACTIONS for (alg, k) in sorted(MATCH)] + \
 
 
 def machine_init():
-    return [((), ("signers", ()))]
+    # two ways to drive the machine: a fresh signer per operation (cmd_sign.main) and ONE signer object reused for the
+    # whole history (library use; exposes state leaking from one sign_envelope call into the next)
+    # ... each from the unsigned envelope and from the envelope already signed by key A (a non-initial state)
+    return [((m,), ("signers", m, ())) for m in ("main", "reuse", "main+signed", "reuse+signed")]
 
 
 def machine_step(hist, agg, expand):
     """hist = tuple of op indices; the model state (signers present) is recomputed along the way and every transition
     is executed on the real envelope."""
     hist = tuplify(hist)
-    cur = base_envelopes()["unsigned"]
-    model = []           # list of (alg, key)
+    mode, hist = hist[0], hist[1:]
+    cur = base_envelopes()["signed" if mode.endswith("+signed") else "unsigned"]
+    model = [("eddsa", "ed25519_b", 77)] if mode.endswith("+signed") else []          # list of (alg, key, key id)
+    signer = None
+    if mode.startswith("reuse"):
+        from suit_generator import cmd_sign
+        from suit_generator.suit_sign_script_base import SuitSignAlgorithms, SignatureAlreadyPresentActions
+        signer = cmd_sign._import_signer(scripts()[0])
     with fresh_dir("c09m") as d:
         for step, oi in enumerate(hist):
             act, alg, kt = OPS[oi]
             exp = expect_single(bool(model), act, alg, kt)
             i, o = os.path.join(d, f"{step}.in"), os.path.join(d, f"{step}.out")
             open(i, "wb").write(cur)
-            label = f"history {[OPS[x] for x in hist[:step + 1]]} (signers before: {model})"
+            label = f"history[{mode}] {[OPS[x] for x in hist[:step + 1]]} (signers before: {model})"
             try:
-                sign_main(i, o, kt, alg, act)
+                if signer is None:
+                    sign_main(i, o, kt, alg, act)
+                else:
+                    env = cmd_sign.load_envelope(i)
+                    res = signer.sign_envelope(env, kt, KID, SuitSignAlgorithms(alg), vkeys.key_dir(), scripts()[1], SignatureAlreadyPresentActions(act))
+                    cmd_sign.save_envelope(o, res)
                 out = open(o, "rb").read()
             except Exception as e:
                 if exp != "refuse":
@@ -210,8 +224,10 @@ def machine_step(hist, agg, expand):
                 if os.path.exists(o):
                     agg.viol("C09:machine/refusal-left-output", f"{label}: refused but wrote output")
                     return []
+                if signer is not None and step < len(hist) - 1:
+                    continue
                 if step == len(hist) - 1:
-                    agg.rej(h8("c09m", hist), "refused", nontrivial=True)
+                    agg.rej(h8("c09m", mode, hist), "refused", nontrivial=True)
                     return []     # terminal: nothing new to explore from a refusal (state unchanged)
                 continue
             r = judge_single(cur, out, exp, kt, alg)
@@ -219,28 +235,32 @@ def machine_step(hist, agg, expand):
                 agg.viol(f"C09:machine/{r[0]}", f"{label}: {r[1]}")
                 return []
             if exp == "append":
-                model = model + [(alg, kt)]
+                model = model + [(alg, kt, KID)]
             elif exp == "replace":
-                model = [(alg, kt)]
+                model = [(alg, kt, KID)]
             cur = out
             # conformance: number of blocks equals the model, each verifies under its modelled key
             ob, _, _ = blocks_of(cur)
             if len(ob) != len(model):
                 agg.viol("C09:machine/state-divergence", f"{label}: envelope carries {len(ob)} signatures, model says {len(model)}")
                 return []
-            for blk, (a2, k2) in zip(ob, model):
-                bad = verify_block(cur, blk, k2, a2)
+            for blk, (a2, k2, kid2) in zip(ob, model):
+                bad = verify_block(cur, blk, k2, a2, kid2)
                 if bad:
                     agg.viol("C09:machine/state-divergence", f"{label}: block does not verify under modelled signer {(a2, k2)}: {bad}")
                     return []
-    agg.ok(h8("c09m", hist), f"ok:signers={len(model)}", sample={"history": [OPS[x] for x in hist], "signers": model} if len(hist) == 2 else None)
+    agg.ok(h8("c09m", mode, hist), f"ok:{mode}:signers={len(model)}", sample={"mode": mode, "history": [OPS[x] for x in hist], "signers": model} if len(hist) == 2 else None)
     if not expand:
         return []
     succ = []
     for oi, (act, alg, kt) in enumerate(OPS):
         exp = expect_single(bool(model), act, alg, kt)
-        nm = model + [(alg, kt)] if exp == "append" else [(alg, kt)] if exp == "replace" else model
-        succ.append((f"{act}/{alg}/{kt}", hist + (oi,), h8("mstate", nm) if exp != "refuse" else h8("refusal", hist, oi)))
+        nm = model + [(alg, kt, KID)] if exp == "append" else [(alg, kt, KID)] if exp == "replace" else model
+        if mode.startswith("reuse"):
+            # a reused object may carry hidden state: histories are NOT merged by model state (every sequence is run)
+            succ.append((f"{act}/{alg}/{kt}", (mode,) + hist + (oi,), h8("reuse-hist", mode, hist, oi)))
+        else:
+            succ.append((f"{act}/{alg}/{kt}", (mode,) + hist + (oi,), h8("mstate", mode, nm) if exp != "refuse" else h8("refusal", mode, hist, oi)))
     return succ
 
 
@@ -457,8 +477,6 @@ def run_recursive(tree, ch, agg):
             want_n = len(ibk) + 1 if e == "append" else 1
             if len(obk) != want_n:
                 problems.append(("signature-count", f"{c['path']}: {len(obk)} signatures, expected {want_n}"))
-            elif e == "replace" and obk[0] in ibk:
-                problems.append(("remove-old-kept-old", f"{c['path']}: old signature still present"))
             else:
                 bad = verify_block(ob, obk[-1], node_key(c), c["alg"], node_kid(c))
                 if bad:
@@ -489,7 +507,7 @@ def plan(tier):
     b = 2 if tier == "quick" else 3
     st = [
         CaseStage("single-level", lambda: single_cases(tier), run_single, rule="input x action x algorithm x key type"),
-        BfsStage("policy-machine", machine_init, machine_step, max_depth=3 if tier == "quick" else 4,
+        BfsStage("policy-machine", machine_init, machine_step, max_depth=2 if tier == "quick" else 3,
                  rule="sign operation histories; state = signers present (reference model), every transition executed on the real envelope"),
     ]
     for i, sh in enumerate(SHAPES):
